@@ -71,18 +71,47 @@ Theorem C15_assign_too_long : forall t mem v us, wf_value t v -> units_of t v = 
 Proof. exact assign_too_long. Qed.
 Print Assumptions C15_assign_too_long.
 
-(* ffi.string stops at the first zero unit within maxlen (the array length for arrays) *)
-Theorem C15_string_stops_at_first_zero : forall us, exists rest,
-  us = until_zero us ++ rest /\ zero_free (until_zero us) /\
-  (rest = [] \/ exists rest', rest = 0 :: rest').
-Proof. exact until_zero_spec. Qed.
-Print Assumptions C15_string_stops_at_first_zero.
+(* ffi.string(x, maxlen) on an array cdata over the units mem: the scan covers the first `length`
+   units, length = maxlen if given (>= 0) else the array length; the result is built from the units r
+   before the first zero unit in that range (r is zero-free, and is followed by a zero unit or by the
+   end of the range) *)
+Theorem C15_string_array_stops_at_first_zero : forall t mem maxlen,
+  let length := if maxlen <? 0 then zlen mem else maxlen in
+  exists r rest,
+    firstn (Z.to_nat length) mem = r ++ rest /\ zero_free r /\
+    (rest = [] \/ exists rest', rest = 0 :: rest') /\
+    string_array t mem maxlen = of_units t r.
+Proof. exact string_array_stops. Qed.
+Print Assumptions C15_string_array_stops_at_first_zero.
 
-(* ffi.unpack returns exactly n units *)
-Theorem C15_unpack_exact : forall mem n, 0 <= n <= zlen mem ->
-  exists us, unpack E8 mem n = Ok (PBytes us) /\ zlen us = n /\ us = firstn (Z.to_nat n) mem.
-Proof. exact unpack_exact. Qed.
+(* ffi.string(p, maxlen) on a pointer: the same within maxlen units; without maxlen up to the first
+   zero unit of the memory *)
+Theorem C15_string_pointer_stops_at_first_zero : forall t mem maxlen,
+  exists r rest,
+    (if maxlen <? 0 then mem else firstn (Z.to_nat maxlen) mem) = r ++ rest /\ zero_free r /\
+    (rest = [] \/ exists rest', rest = 0 :: rest') /\
+    string_pointer t mem maxlen = of_units t r.
+Proof. exact string_pointer_stops. Qed.
+Print Assumptions C15_string_pointer_stops_at_first_zero.
+
+(* ffi.unpack(p, n), every element kind: built from exactly the first n units, zeros included (for
+   char16_t the n units are then decoded as UTF-16, cf. C18) *)
+Theorem C15_unpack_exact : forall t mem n, 0 <= n <= zlen mem ->
+  exists us, us = firstn (Z.to_nat n) mem /\ zlen us = n /\ unpack t mem n = of_units t us.
+Proof. exact unpack_exact_all. Qed.
 Print Assumptions C15_unpack_exact.
+
+(* non-vacuity of C15_string_new_roundtrip: values of every element type meet `roundtrips` *)
+Example C15_example_roundtrips :
+  roundtrips E8 (PBytes [104; 105; 255]) /\ roundtrips E16 (PStr [0x1F600; 97; 0xD800; 0x20AC]) /\
+  roundtrips E32 (PStr [0x1F600; 0xDC00; 97]).
+Proof. exact roundtrips_examples. Qed.
+
+Example C15_example_roundtrip_run :
+  new_open_array E16 (PStr [0x1F600; 97; 0xD800; 0x20AC]) = Ok [0xD83D; 0xDE00; 97; 0xD800; 0x20AC; 0] /\
+  string_array E16 [0xD83D; 0xDE00; 97; 0xD800; 0x20AC; 0] (-1) = Ok (PStr [0x1F600; 97; 0xD800; 0x20AC]) /\
+  string_array E16 [0xD83D; 0xDE00; 97; 0xD800; 0x20AC; 0] 1 = Ok (PStr [0xD83D]).
+Proof. vm_compute. repeat split; reflexivity. Qed.
 
 (* non-vacuity: the witness of the (fixed) terminator defect: a = 'wxyz' then a = 'ab' in char16_t[4]
    and char32_t[4]; an astral character takes two units; U+1F600 round-trips through char16_t *)
